@@ -678,10 +678,12 @@ package rapid
 //@   ensures [C02] implies(cleanupFalsified, result != nil && !isInvalidData(result.data))
 //@   ensures [C02] implies(propFalsified && !cleanupSkipped, result != nil && !isInvalidData(result.data))
 //@   ensures [C02] implies(propFalsified && cleanupSkipped, result != nil && !isInvalidData(result.data))
-//@   requires [C10,C11] clean(t) && unlocked(t) && prop != nil
-//@   ensures [C10,C11] len(t.cleanups) == 0 && t.ctx == nil && t.cancelCtx == nil && !cleaning(t) && unlocked(t)
-//@   ensures [C02,C09,C11,C13] implies(result == nil, t.failed == "")
-//@   ensures [C02,C09,C11,C13] implies(result != nil && isInvalidData(result.data), t.failed == "")
+//@   requires [C01,C07,C10,C11] clean(t) && unlocked(t) && prop != nil
+//   (C01, C07 too: findBug re-uses the T - the case it reports, and the case a printed seed reproduces, must have run
+//   as they would on the fresh T of the replay)
+//@   ensures [C01,C07,C10,C11] len(t.cleanups) == 0 && t.ctx == nil && t.cancelCtx == nil && !cleaning(t) && unlocked(t)
+//@   ensures [C01,C02,C07,C09,C11,C13] implies(result == nil, t.failed == "")
+//@   ensures [C01,C02,C07,C09,C11,C13] implies(result != nil && isInvalidData(result.data), t.failed == "")
 //@   ensures [C02] implies(result != nil, fresh(result))
 //@   ensures [C05] implies(result != nil, result.traceback != "    <no error>\n")
 //@   ensures drawn >= old(drawn)
@@ -907,7 +909,7 @@ package rapid
 //@   at checkOnce#0 set sawFailure = result != nil && !isInvalidData(result.data)
 //@   loop 0 invariant [C02] !sawFailure
 //@   loop 0 invariant [C09] 0 <= valid && valid <= checks && 0 <= invalid && invalid <= checks*10 && runs - old(runs) == valid + invalid
-//@   loop 0 invariant [C11] clean(t) && unlocked(t) && fresh(t)
+//@   loop 0 invariant [C01,C07,C11] clean(t) && unlocked(t) && fresh(t)
 //@   loop 0 invariant [C07] implies(valid + invalid == 0, seed == old(seed))
 //@   loop 0 invariant [C18] implies(valid + invalid > 0, seed == lastInit)
 
